@@ -2658,8 +2658,11 @@ static PyObject* gemm(PyObject *self, PyObject *args, PyObject *kwrds)
 
     if (ldA == 0) ldA = MAX(1,A->nrows);
     if (k > 0 && ldA < MAX(1, (transA == 'N') ? m : k)) err_ld("ldA");
+    /* A and B are not referenced if k = 0; use a value the BLAS accepts */
+    if (k == 0) ldA = MAX(ldA, MAX(1, (transA == 'N') ? m : k));
     if (ldB == 0) ldB = MAX(1,B->nrows);
     if (k > 0 && ldB < MAX(1, (transB == 'N') ? k : n)) err_ld("ldB");
+    if (k == 0) ldB = MAX(ldB, MAX(1, (transB == 'N') ? k : n));
     if (ldC == 0) ldC = MAX(1,C->nrows);
     if (ldC < MAX(1,m)) err_ld("ldB");
 
@@ -3085,6 +3088,8 @@ static PyObject* syrk(PyObject *self, PyObject *args, PyObject *kwrds)
 
     if (ldA == 0) ldA = MAX(1,A->nrows);
     if (k > 0 && ldA < MAX(1, (trans == 'N') ? n : k)) err_ld("ldA");
+    /* A is not referenced if k = 0; use a value the BLAS accepts */
+    if (k == 0) ldA = MAX(ldA, MAX(1, (trans == 'N') ? n : k));
     if (ldC == 0) ldC = MAX(1,C->nrows);
     if (ldC < MAX(1,n)) err_ld("ldC");
     if (oA < 0) err_nn_int("offsetA");
@@ -3207,6 +3212,8 @@ static PyObject* herk(PyObject *self, PyObject *args, PyObject *kwrds)
 
     if (ldA == 0) ldA = MAX(1,A->nrows);
     if (k > 0 && ldA < MAX(1, (trans == 'N') ? n : k)) err_ld("ldA");
+    /* A is not referenced if k = 0; use a value the BLAS accepts */
+    if (k == 0) ldA = MAX(ldA, MAX(1, (trans == 'N') ? n : k));
     if (ldC == 0) ldC = MAX(1,C->nrows);
     if (ldC < MAX(1,n)) err_ld("ldC");
     if (oA < 0) err_nn_int("offsetA");
@@ -3349,8 +3356,11 @@ static PyObject* syr2k(PyObject *self, PyObject *args, PyObject *kwrds)
 
     if (ldA == 0) ldA = MAX(1,A->nrows);
     if (k > 0 && ldA < MAX(1, (trans == 'N') ? n : k)) err_ld("ldA");
+    /* A is not referenced if k = 0; use a value the BLAS accepts */
+    if (k == 0) ldA = MAX(ldA, MAX(1, (trans == 'N') ? n : k));
     if (ldB == 0) ldB = MAX(1,B->nrows);
     if (k > 0 && ldB < MAX(1, (trans == 'N') ? n : k)) err_ld("ldB");
+    if (k == 0) ldB = MAX(ldB, MAX(1, (trans == 'N') ? n : k));
     if (ldC == 0) ldC = MAX(1,C->nrows);
     if (ldC < MAX(1,n)) err_ld("ldC");
 
@@ -3509,8 +3519,11 @@ static PyObject* her2k(PyObject *self, PyObject *args, PyObject *kwrds)
 
     if (ldA == 0) ldA = MAX(1,A->nrows);
     if (k > 0 && ldA < MAX(1, (trans == 'N') ? n : k)) err_ld("ldA");
+    /* A is not referenced if k = 0; use a value the BLAS accepts */
+    if (k == 0) ldA = MAX(ldA, MAX(1, (trans == 'N') ? n : k));
     if (ldB == 0) ldB = MAX(1,B->nrows);
     if (k > 0 && ldB < MAX(1, (trans == 'N') ? n : k)) err_ld("ldB");
+    if (k == 0) ldB = MAX(ldB, MAX(1, (trans == 'N') ? n : k));
     if (ldC == 0) ldC = MAX(1,C->nrows);
     if (ldC < MAX(1,n)) err_ld("ldC");
 
